@@ -141,33 +141,50 @@ fn obs_rr(obs: &mut Vec<Value>, part: &str, rr: &ResourceRecord, p: &Packet) {
     obs_rdata(obs, part, &rr.rdata);
 }
 
+fn observe(obs: &mut Vec<Value>, tag: &str, p: &Packet) {
+    obs.push(json!(["packet.debug", format!("{tag}packet"), [], total(|| format!("{:?}", p))]));
+    obs.push(json!(["packet.clone", format!("{tag}packet"), [], total(|| p.clone().id())]));
+    obs.push(json!(["packet.accessors", format!("{tag}packet"), [], total(|| (p.id(), p.rcode() == p.rcode(), p.opcode() == p.opcode(), p.opt().map(|o| o.opt_codes.len()), p.has_flags(simple_dns::PacketFlag::RESPONSE)))]));
+    obs.push(json!(["packet.into_reply", format!("{tag}packet"), [], total(|| p.clone().into_reply().id() == p.id())]));
+    obs.push(json!(["packet.into_owned_parts", format!("{tag}packet"), [], total(|| {
+        let q: Vec<_> = p.questions.iter().cloned().map(|q| q.into_owned()).collect();
+        let a: Vec<_> = p.answers.iter().cloned().map(|r| r.into_owned()).collect();
+        (q.len(), a.len())
+    })]));
+    obs.push(json!(["packet.build", format!("{tag}packet"), [], total(|| p.build_bytes_vec().is_ok())]));
+    obs.push(json!(["packet.build_compressed", format!("{tag}packet"), [], total(|| p.build_bytes_vec_compressed().is_ok())]));
+    for (i, q) in p.questions.iter().enumerate() {
+        let part = format!("{tag}qd[{i}]");
+        obs.push(json!(["question.debug", part, [], total(|| format!("{:?}", q))]));
+        obs.push(json!(["question.into_owned", part, [], total(|| q.clone().into_owned().unicast_response)]));
+        obs_name(obs, &part, &q.qname);
+    }
+    for (sec, rrs) in [("an", &p.answers), ("ns", &p.name_servers), ("ar", &p.additional_records)] {
+        for (i, rr) in rrs.iter().enumerate() {
+            obs_rr(obs, &format!("{tag}{sec}[{i}]"), rr, p);
+        }
+    }
+}
+
 pub fn inspect_event(cls: &str, b: &[u8]) -> Option<Value> {
     let p = match guarded(|| Packet::parse(b)) {
         Ok(Ok(p)) => p,
         _ => return None,
     };
     let mut obs: Vec<Value> = vec![];
-    obs.push(json!(["packet.debug", "packet", [], total(|| format!("{:?}", p))]));
-    obs.push(json!(["packet.clone", "packet", [], total(|| p.clone().id())]));
-    obs.push(json!(["packet.accessors", "packet", [], total(|| (p.id(), p.rcode() == p.rcode(), p.opcode() == p.opcode(), p.opt().map(|o| o.opt_codes.len()), p.has_flags(simple_dns::PacketFlag::RESPONSE)))]));
-    obs.push(json!(["packet.into_reply", "packet", [], total(|| p.clone().into_reply().id() == p.id())]));
-    obs.push(json!(["packet.into_owned_parts", "packet", [], total(|| {
-        let q: Vec<_> = p.questions.iter().cloned().map(|q| q.into_owned()).collect();
-        let a: Vec<_> = p.answers.iter().cloned().map(|r| r.into_owned()).collect();
-        (q.len(), a.len())
-    })]));
-    obs.push(json!(["packet.build", "packet", [], total(|| p.build_bytes_vec().is_ok())]));
-    obs.push(json!(["packet.build_compressed", "packet", [], total(|| p.build_bytes_vec_compressed().is_ok())]));
-    for (i, q) in p.questions.iter().enumerate() {
-        let part = format!("qd[{i}]");
-        obs.push(json!(["question.debug", part, [], total(|| format!("{:?}", q))]));
-        obs.push(json!(["question.into_owned", part, [], total(|| q.clone().into_owned().unicast_response)]));
-        obs_name(&mut obs, &part, &q.qname);
-    }
-    for (sec, rrs) in [("an", &p.answers), ("ns", &p.name_servers), ("ar", &p.additional_records)] {
-        for (i, rr) in rrs.iter().enumerate() {
-            obs_rr(&mut obs, &format!("{sec}[{i}]"), rr, &p);
-        }
+    observe(&mut obs, "", &p);
+    // the same observers on the packet rebuilt from owned parts (into_owned of every question and record): what
+    // was borrowed from the receive buffer is now owned data, and every observer must treat it alike
+    let owned = guarded(|| {
+        let mut o: Packet<'static> = Packet::new_query(p.id());
+        o.questions = p.questions.iter().cloned().map(|q| q.into_owned()).collect();
+        o.answers = p.answers.iter().cloned().map(|r| r.into_owned()).collect();
+        o.name_servers = p.name_servers.iter().cloned().map(|r| r.into_owned()).collect();
+        o.additional_records = p.additional_records.iter().cloned().map(|r| r.into_owned()).collect();
+        o
+    });
+    if let Ok(o) = owned {
+        observe(&mut obs, "owned ", &o);
     }
     Some(json!({"ev": "Inspect", "cls": cls, "b": bytes_json(b), "obs": obs}))
 }
